@@ -72,7 +72,10 @@ pub fn explore(ex: &Ex) {
                     }
                 }
             }
-            for t1 in TAGS {
+            // the registered tag plus multiples of 2^8, 2^16, 2^32 (truncating head decoders)
+            let mut tags: Vec<u64> = TAGS.to_vec();
+            tags.extend([own + (1 << 8), own + (1 << 16), own + (1 << 32), own + (1 << 63)]);
+            for t1 in tags {
                 for w1 in tag_widths(t1) {
                     let once = Enc::Tag(t1, w1, Box::new(be.clone()));
                     let b1 = once.to_bytes();
